@@ -240,6 +240,15 @@ def _guard_rule_functions():
                         ctx.undecided(rule, '%s.%s' % (modname, fname), 'anchor of the rule', None,
                                       'statement form not recognised, the rule gives no verdict here: %s' % e, where='-')
                         return None
+                    except Exception as e:          # the rule's own recogniser met a shape it was not written for
+                        rule = kw.get('rule') or ('R%s.%s' % (fname[1:3], fname.split('_')[1] if '_' in fname else '1'))
+                        last = traceback.format_exc().strip().splitlines()
+                        where_ = [l.strip() for l in last if l.strip().startswith('File "/verif/rules')]
+                        ctx.undecided(rule, '%s.%s' % (modname, fname), 'rule aborted', None,
+                                      'the rule could not analyse the current form of the code (%s: %s; %s): no verdict from this rule'
+                                      % (type(e).__name__, str(e)[:80], where_[-1][:90] if where_ else ''), where='-')
+                        ctx.note('rule %s.%s aborted: %s: %s' % (modname, fname, type(e).__name__, str(e)[:120]))
+                        return None
                 wrapped._guarded = True
                 return wrapped
             setattr(m, name, make(f, name, m.__name__))
